@@ -70,8 +70,11 @@ InsertAt(ls, p, l) == SubSeq(ls, 1, p) \o <<l>> \o SubSeq(ls, p+1, Len(ls))
 JunkBases == { Build(sh, 1, PlainV, DefaultLay) : sh \in { <<1>>, <<2>>, <<1,1>> } }
               \cup { Build(<<2,1>>, 2, V(<<"K">>, <<"S">>, <<>>, << <<<<"S">>, <<"K">>>> >>), [DefaultLay EXCEPT !.cb = {1}]) }
 JunkPlaces(d) == { q \in 0..Len(d.lines) : q = 0 \/ d.lines[q].kind = "B" }
-MkCase(d, junk) == [text |-> Render(d), exp |-> Expected(d), junk |-> junk,
+MkCase(d, junk) == [text |-> Render(d), exp |-> Expected(d), junk |-> junk, odd |-> FALSE,
                     kinds |-> [i \in 1..Len(d.lines) |-> d.lines[i].kind]]
+\* ODD lines: an indented line that starts with '#' or ':' - outside the well-formed documents of C03 (no reading is
+\* claimed), but both readers take such texts, so fidelity (C01) and agreement (C06) are judged on them
+OddPool == { <<"S", "H", "K">>, <<"S", "H">>, <<"S", "S", "H", "K", "C", "K">>, <<"S", "C", "K">> }
 \* Init enumerates the generator's choices directly (no big set is materialised:
 \* TLC's UNION is quadratic in the number of elements).
 MCCases == {}
@@ -82,16 +85,19 @@ MCInit ==
         InitWith(MkCase([lines |-> InsertAt(d.lines, p, JLine(j)), term |-> t], TRUE))
   \/ \E d \in JunkBases : \E p \in JunkPlaces(d) :
         InitWith(MkCase([lines |-> InsertAt(d.lines, p, JLine(JunkIndented)), term |-> TRUE], TRUE))
+  \/ \E d \in JunkBases : \E p \in 1..Len(d.lines), j \in OddPool, t \in BOOLEAN :
+        InitWith([MkCase([lines |-> InsertAt(d.lines, p, JLine(j)), term |-> t], FALSE) EXCEPT !.odd = TRUE])
 
 \* ---- what TLC proves on the model (A)
-DocAccepted  == (Done /\ ~case.junk) => nerr = 0 /\ LLContent = case.exp
-DocLossyOk   == (Done /\ ~case.junk) => lstat = "ok"
+DocAccepted  == (Done /\ ~case.junk /\ ~case.odd) => nerr = 0 /\ LLContent = case.exp
+DocLossyOk   == (Done /\ ~case.junk /\ ~case.odd) => lstat = "ok"
 JunkRejected == (Done /\ case.junk) => nerr >= 1
 
 Emit == Done => PrintT(<<"REPLAY", ToJson([
            i  |-> input,
            x  |-> case.exp,
            j  |-> case.junk,
+           odd |-> case.odd,
            kd |-> case.kinds,
            e  |-> nerr,
            o  |-> out,
